@@ -31,6 +31,7 @@ func init() {
 	vrt.Register("C04_results_used_as_values", ResultsUsedAsValues)
 	vrt.Register("C04_container_changed_in_loop", ContainerChangedInLoop)
 	vrt.Register("C04_print_every_kind", PrintEveryKind)
+	vrt.Register("C04_print_promoted_through_nil", PrintPromotedThroughNil)
 	vrt.Register("C04_helpers", Helpers)
 	vrt.Register("C04_helpers_iter", HelpersIter)
 	vrt.Register("C04_user_functions", UserFunctions)
@@ -792,6 +793,21 @@ func ContainerChangedInLoop() {
 
 // ---- every value kind written by an output tag, bare and inside the
 // containers the sink recurses into, and its promoted members reached
+// a value whose String / HTML method is promoted through an embedded pointer that is
+// nil: calling the method (o.String()) is an error since a30d203, PRINTING the value
+// calls it from the output sink, which has no error path, and the panic leaves Render.
+// A recorded finding (known_findings.json, DESIGN.md 6.2).
+type outerStr struct{ *stringerV }
+type outerHTML struct{ *htmlerV }
+
+func PrintPromotedThroughNil() {
+	ctx := plush.NewContext()
+	vals := []interface{}{outerStr{}, &outerStr{}, outerHTML{}, [1]outerStr{}, []interface{}{outerStr{}}}
+	ctx.Set("a", vals[vrt.Choice(len(vals))])
+	forms := []string{"a", "[a]", "if (true) { %><%= a %><% }"}
+	total("<%= "+forms[vrt.Choice(len(forms))]+" %>", ctx)
+}
+
 func PrintEveryKind() {
 	ctx := plush.NewContext()
 	ctx.Set("a", val(vrt.Choice(nKinds)))
